@@ -145,6 +145,21 @@ def eb_loops(pred):
     return f
 
 
+def expand_loops(k, header, kw):
+    if "__iv.len()" in header:
+        return ("invariant __iv@.len() <= items0.len(), __iv@ == items0.subrange(items0.len() - __iv@.len(), items0.len() as int),\n"
+                "  (diagnostics.count() > 0) == (exists|i: int| 0 <= i < items0.len() - __iv@.len() && unsupported(#[trigger] items0[i])),\n"
+                "  diagnostics.count() == 0 ==> toplevels@.len() == offset(items0, items0.len() - __iv@.len()) "
+                "&& forall|i: int| 0 <= i < items0.len() - __iv@.len() ==> #[trigger] placed(items0, toplevels@, i),\n"
+                "decreases __iv@.len(),")
+    if "__dv.len()" in header:
+        return ("invariant __dv@.len() <= di.len(), __dv@ == di.subrange(di.len() - __dv@.len(), di.len() as int), toplevels@.len() == tl1.len() + (di.len() - __dv@.len()),\n"
+                "  forall|q: int| 0 <= q < tl1.len() ==> #[trigger] toplevels@[q] == tl1[q],\n"
+                "  forall|q: int| 0 <= q < di.len() - __dv@.len() ==> #[trigger] toplevels@[tl1.len() + q] == Item::ImplBlock(di[q]),\n"
+                "decreases __dv@.len(),")
+    return None
+
+
 def es_loops(k, header, kw):
     if "__ix <" in header:
         return ("invariant __ix <= fields.len(), bindings@.len() == fields.len(), fields.len() > 0,\n"
@@ -168,7 +183,8 @@ UNIT = Unit(
     items=[
         Raw(path="contracts/derive.shim.rs"),
         adt("struct", "AstIdent"), adt("struct", "PathSegment"), adt("struct", "Path"), adt("enum", "TypeExpr"), adt("struct", "ClosureParam"),
-        adt("struct", "Attribute"), adt("enum", "Expr"), adt("struct", "Arm"), adt("enum", "Pat"), adt("struct", "StructDef"), adt("struct", "EnumDef"), adt("struct", "Fn"), adt("struct", "ImplBlock"),
+        adt("struct", "Attribute"), adt("enum", "Expr"), adt("struct", "Arm"), adt("enum", "Pat"), adt("struct", "StructDef"), adt("struct", "EnumDef"), adt("struct", "Fn"), adt("struct", "ImplBlock"), adt("struct", "TraitMethodSignature"), adt("struct", "TraitDef"), adt("struct", "ExternGo"),
+        adt("struct", "ExternType"), adt("struct", "ExternBuiltin"), adt("enum", "Item"), adt("struct", "File"),
         Fn(file=A, name="new", container="AstIdent", as_method_of="AstIdent", ret="r", rewrites=[("name.to_string()", "str_to_string(name)")],
            obligation="the identifier with that text", contract="ensures r.0@ == name@,"),
         Fn(file=A, name="from_ident", container="Path", as_method_of="Path", rewrites=[("vec![PathSegment::new(ident)]", "vec![PathSegment { ident }]")], ret="r",
@@ -319,5 +335,22 @@ UNIT = Unit(
            obligation="a generic enum is rejected with a diagnostic; otherwise `impl Name { fn to_string(self: Name) -> string { <body> } }` with the body build_enum_body builds",
            contract="ensures (r is Err) == (enum_def.generics@.len() > 0),\n"
                     "        r is Ok ==> derived_impl(r->Ok_0, enum_def.name.0@, \"to_string\"@) && enum_string_body(r->Ok_0.methods@[0].body, *enum_def),"),
+        Fn(file=D, name="expand", ret="r", attrs="#[verifier::loop_isolation(false)]", rules=["attrs"],
+           pre_rewrites=[("for item in ast.toplevels.into_iter() {", "let ghost items0 = ast.toplevels@; let mut __iv = ast.toplevels; while __iv.len() > 0 { let item = __iv.remove(0);"),
+                         ("for impl_block in derived_impls {", "let mut __dv = derived_impls; while __dv.len() > 0 { let impl_block = __dv.remove(0);"),
+                         (re.compile(r"find_derive_attr\(&(\w+)\.attrs, "), r"find_derive_attr(\1.attrs.as_slice(), ", "*")],
+           rewrites=RW,
+           obligation="a generic struct / enum that asks for a derive makes the whole expansion fail (Err) — it is never passed on without its impl; otherwise "
+                      "(Ok) every item is followed directly by its to_string impl (if asked for) and then its to_json impl (if asked for), nothing else is "
+                      "added, order kept",
+           contract="ensures (r is Err) == (exists|i: int| 0 <= i < ast.toplevels@.len() && unsupported(#[trigger] ast.toplevels@[i])),\n"
+                    "        r is Ok ==> expanded(ast.toplevels@, r->Ok_0.toplevels@),",
+           ghost=[("@loop-body:__iv\\.len", "", "let ghost k = items0.len() - __iv@.len(); let ghost d0 = diagnostics.count(); let ghost tl0 = toplevels@;"),
+                  ("let item = __iv.remove(0);", "after", "proof { assert(item == items0[k]); }"),
+                  ("toplevels.push(item);", "line-before", "let ghost di = derived_impls@;\nproof { assert(diagnostics.count() >= d0); "
+                   "assert((diagnostics.count() > d0) == unsupported(item)); assert(diagnostics.count() == d0 ==> impls_ok(di, item)); }"),
+                  ("toplevels.push(item);", "line-after", "let ghost tl1 = toplevels@;"),
+                  ("@after-loop:__dv\\.len", "", "proof { if diagnostics.count() == 0 { lemma_expand_step(items0, k, tl0, toplevels@, di); } }")],
+           loop_fn=expand_loops),
     ],
 )
